@@ -770,8 +770,19 @@ class Flow:
                 t_term = _terminates(s.body)
                 f_term = _terminates(s.orelse) if s.orelse else False
                 if t_term != f_term:
-                    self.guards.append((self._last_if_test, not t_term))
+                    self.guards.append((self._if_tests.get(id(s), self._last_if_test), not t_term))
                     pushed += 1
+                    # `if a: return .. elif b: return ..` -- the arm that falls through may itself end with an `if` that leaves
+                    # on one side: what follows runs only when that exit condition is false too (elif chains of early returns)
+                    arm = s.orelse if t_term else s.body
+                    while arm and isinstance(arm[-1], ast.If) and id(arm[-1]) in self._if_tests:
+                        inner = arm[-1]
+                        i_t, i_f = _terminates(inner.body), (_terminates(inner.orelse) if inner.orelse else False)
+                        if i_t == i_f:
+                            break
+                        self.guards.append((self._if_tests[id(inner)], not i_t))
+                        pushed += 1
+                        arm = inner.orelse if i_t else inner.body
                 elif not t_term and not f_term and not self.keep_arms:
                     ec = self._exit_cond([s])
                     if ec is not None:
